@@ -235,12 +235,16 @@ def _dedrift_call(P, d, route):
         if route in ('direct', 'direct_kw'):
             # an explicit rate (zero included) takes precedence over whatever the frame's metadata says: the metadata
             # carries a DIFFERENT non-zero rate as a decoy while the explicit routes are exercised
-            P.metadata['drift_rate'] = 0.77 * P.df / P.dt if d <= 0 else -0.77 * P.df / P.dt
+            decoy = 0.77 * P.df / P.dt if d <= 0 else -0.77 * P.df / P.dt
+            P.metadata['drift_rate'] = decoy
             try:
                 if route == 'direct':
                     return stg.dedrift(P, d)
                 return stg.dedrift(P, drift_rate=d)
             finally:
+                # the parent is an input: the rate recorded on it is what it was (a later de-drift from its metadata uses it)
+                if P.metadata.get('drift_rate') != decoy:
+                    P._c17_meta_changed = (decoy, P.metadata.get('drift_rate'))
                 P.metadata.pop('drift_rate', None)
         P.metadata['drift_rate'] = d
         return stg.dedrift(P)
@@ -251,6 +255,10 @@ def _check_dedrift_result(P, p0, fs0, D, d, V, site):
     import setigen as stg
     m, n = p0.shape
     df, dt = P.df, P.dt
+    if getattr(P, '_c17_meta_changed', None) is not None:
+        V(site, 'parent_metadata_changed', 'de-drifting with an explicit rate %r changed the drift rate recorded on the PARENT from %r to %r'
+          % (d, P._c17_meta_changed[0], P._c17_meta_changed[1]))
+        P._c17_meta_changed = None
     if not isinstance(D, stg.Frame):
         V(site, 'type', 'returned %s' % type(D).__name__)
         return None
